@@ -6,6 +6,9 @@ import DimodProofs.ZipEnd
 import DimodProofs.CqmClosed
 import DimodProofs.DqmClosed
 import DimodProofs.CqmDomain
+import DimodProofs.ZipStrict
+import DimodProofs.ZipTrunc
+import DimodProofs.DqmLenChecked
 
 /-! # C10 — a truncated model file never loads as a different model -/
 
@@ -451,5 +454,171 @@ theorem loader_repairs_from_source :
 example : sigOnlyAtEnd ([1, 2] ++ eocdRecord 0 0 0) = true ∧
     (∀ i, SigAt ([1, 2] ++ eocdRecord 0 0 0) i → ([1, 2] ++ eocdRecord 0 0 0).length ≤ i + 22) :=
   ⟨by decide, sigOnlyAtEnd_sound _ (by decide)⟩
+
+/-! ## round 8: the tiling check alone is not enough — the directory must agree with the local headers
+
+Found on the real (round-7 repaired) loader: a payload can spell a directory that lists a COVER member at the header end
+whose `compress_size` spans every real member up to the embedded ones; the members then tile the file, the loader never
+opens the cover, and a truncated file loads as the embedded model (`notes/repro/r8e-cqm-cover-member.py`).  Repaired in
+dimod by `patches/cqm-archive-local-headers.diff`; `openTiledStrict` is the model of the repaired opener. -/
+
+/-- **the round-7 walk trusts the directory's size** (the mechanism of the defect, a theorem about the model `tilesFrom` of
+    the round-7 `_open_archive`): a listed member at the walk's position moves the walk by `30 + name + extra + c` for EVERY
+    `compress_size = c` the directory states — so a directory spelled by the payload reaches any position it likes,
+    in particular the first embedded member. -/
+theorem tiling_walk_trusts_directory_size (file : Bytes) (sd ocd pos : Nat) (i : CDInfo) (c : Nat) (h1 : ocd ≤ i.offset + sd)
+    (h2 : i.offset + sd - ocd = pos) (h3 : ((file.drop (pos + 26)).take 4).length = 4) :
+    tilesFrom file sd ocd pos [{ i with csize := c }] =
+      some (pos + 30 + leNat (((file.drop (pos + 26)).take 4).take 2) + leNat (((file.drop (pos + 26)).take 4).drop 2) + c) :=
+  tilesFrom_single file sd ocd pos i c h1 h2 h3
+
+/-- **the repaired opener accepts every archive the writer appended** — no valid file is refused, the members are read as
+    before — given that each local header records the size of its data (`ZEntry.LocalOK`: the 4-byte field, or `0xFFFFFFFF`
+    and the zip64 extra of `force_zip64=True`; a Boolean the driver evaluates on every generated file). -/
+theorem local_header_check_accepts_written (crc32 : Bytes → Nat) (inflate : Bytes → Option Bytes) (pre : Bytes) (zs : List ZEntry)
+    (hz : ∀ z ∈ zs, z.OK crc32 inflate) (hl : ∀ z ∈ zs, z.LocalOK) (hcount : zs.length < 256 ^ 2)
+    (hsize : pre.length + (zipLocals zs).length + (zipCD pre.length zs).length < 4294967295) :
+    openTiledStrict crc32 inflate pre.length (pre ++ zipBytes pre.length zs) = some (zs.map fun z => (z.name, z.content)) :=
+  openTiledStrict_zipBytes crc32 inflate pre zs hz hl hcount hsize
+
+/-- **the directory cannot lie**: whatever directory `zipfile` found (`infos`: ANY list — the real one or one spelled by a
+    payload, with any `start_dir` / `offset_cd`), if the repaired walk passes over the local entries the writer wrote after
+    the header, then the listed members ARE the first `infos.length` written members — same names, same sizes, same order —
+    and the walk (hence `start_dir`) stands at the boundary after them.  So a truncated file can only be accepted with a
+    directory that sits at a member boundary and lists exactly the real members before it. -/
+theorem local_header_check_directory_cannot_lie (sd ocd : Nat) (zs : List ZEntry) (pre post : Bytes) (infos : List CDInfo) (p : Nat)
+    (hl : ∀ z ∈ zs, z.LocalOK) (hlen : infos.length ≤ zs.length)
+    (h : tilesFromStrict (pre ++ (zipLocals zs ++ post)) sd ocd pre.length infos = some p) :
+    infos.map (fun i => (i.name, i.csize)) = (zs.take infos.length).map (fun z => (z.name, z.stored.length)) ∧
+    p = pre.length + (zipLocals (zs.take infos.length)).length :=
+  tilesFromStrict_sound sd ocd zs pre post infos p hl hlen h
+
+/-- **the cover member is refused**: a directory whose first member (in offset order) states another size than the local
+    header of the first written member — the counterexample class of round 8 — fails the repaired walk, whatever follows. -/
+theorem local_header_check_refuses_cover (sd ocd : Nat) (z : ZEntry) (pre rest : Bytes) (i : CDInfo) (t : List CDInfo) (hz : z.LocalOK)
+    (hc : i.csize ≠ z.stored.length) : tilesFromStrict (pre ++ (localEntry z ++ rest)) sd ocd pre.length (i :: t) = none :=
+  tilesFromStrict_cover_none sd ocd z pre rest i t hz hc
+
+/-- **the repaired opener refines the round-7 opener**: what it opens, the tiling opener opens with the same members; so it
+    still refuses an archive that does not start where the header ended (`tiling_check_accepts_and_refuses` (ii)). -/
+theorem local_header_check_refines_tiling (crc32 : Bytes → Nat) (inflate : Bytes → Option Bytes) :
+    (∀ start file ms, openTiledStrict crc32 inflate start file = some ms → openTiled crc32 inflate start file = some ms) ∧
+    ∀ (other : Bytes) (base start : Nat) (z : ZEntry) (zs' : List ZEntry), other.length ≠ start →
+      (∀ y ∈ z :: zs', y.OK crc32 inflate) → (z :: zs').length < 256 ^ 2 →
+      base + (zipLocals (z :: zs')).length + (zipCD base (z :: zs')).length < 4294967295 →
+      openTiledStrict crc32 inflate start (other ++ zipBytes base (z :: zs')) = none := by
+  refine ⟨fun start file ms h => openTiled_of_strict crc32 inflate start file ms h, fun other base start z zs' hs hz hc hsz => ?_⟩
+  cases h : openTiledStrict crc32 inflate start (other ++ zipBytes base (z :: zs')) with
+  | none => rfl
+  | some ms =>
+    have := openTiled_of_strict crc32 inflate start _ ms h
+    rw [openTiled_embedded_none crc32 inflate other base start z zs' hs hz hc hsz] at this
+    exact absurd this (by simp)
+
+/-- **the round-8 repair is in the source under test** (regenerated by `harness/translators/fileconsts.py` from the ast of
+    `_open_archive`): the walk compares the directory's `header_offset`, `compress_size` and `orig_filename` with what the
+    local header at that position records, and checks the local signature.  A source that drops the comparison breaks this
+    theorem; the harness (`adversarial_payloads`: cover member) then produces the truncated file that loads as another model. -/
+theorem loader_repairs_from_source_r8 :
+    Gen.cqmChecksLocalHeaders = true ∧ Gen.cqmChecksArchiveTiling = true ∧
+    Gen.cqmOpenerComparedFields = ["compress_size", "flag_bits", "header_offset", "orig_filename"] := by decide
+
+/-- non-vacuity: a member as `writestr` writes it (size in the header) and one as `zf.open(name, 'w', force_zip64=True)`
+    writes it (`0xFFFFFFFF` + zip64 extra: id 1, length 16, file size, compressed size) both meet `LocalOK` -/
+example : (ZEntry.mk [118] [1, 2, 3] [1, 2, 3] 0 0 20 20 0 0 0 3 3 [] [] 0 0).LocalOK ∧
+    (ZEntry.mk [111] [1, 2, 3] [1, 2, 3] 0 0 45 45 0 0 0 4294967295 4294967295
+      ([1, 0, 16, 0] ++ toLE 8 3 ++ toLE 8 3) [] 0 0).LocalOK := by decide
+
+/-! ## round 8: the general statement — every proper prefix is refused, whatever the payload -/
+
+/-- **every proper prefix of a written archive file is refused by the repaired opener, WHATEVER THE PAYLOAD.**  For any bytes
+    `pre` (the dimod header) followed by the archive `zipfile` appends for any non-empty list of members `front ++ [zl]` —
+    any contents: end records, directories, whole archives with cover members spelled by the biases — the model of
+    `_open_archive` (as coded after `patches/cqm-archive-local-headers.diff`: `_EndRecData` with its backward search,
+    `start_dir` / `concat`, the directory loop, sort by offset, the walk over the local headers, `pos == start_dir`) returns
+    `none` (raises) on the first `k` bytes, for every `k` below the file length.  No side condition on where the end-record
+    signature occurs.  Assumed: what the writer guarantees of each member (`ZEntry.OK`; `LocalOK`: the local header records
+    the size of the data, evaluated by the driver on every generated file) and that the name / directory extra of the LAST
+    member holds no byte `0x06` (names are ASCII JSON text; the extra is empty below 4 GiB).
+    Proof: the walk ends at `start_dir` inside the prefix, so it is a walk on the complete file; there the directory cannot
+    lie (`local_header_check_directory_cannot_lie`), so `start_dir` is the boundary after the first `m` real members; for
+    `m` below the member count the bytes there are a local header, not a directory record (nor, for an empty directory, an
+    end record); for `m` = all members the directory read is the real one cut short, whose `n` records reach into the last
+    name, where no end-record signature can start. -/
+theorem truncation_safe_archive_any_payload (crc32 : Bytes → Nat) (inflate : Bytes → Option Bytes) (pre : Bytes) (front : List ZEntry)
+    (zl : ZEntry) (hz : ∀ z ∈ front ++ [zl], z.OK crc32 inflate) (hl : ∀ z ∈ front ++ [zl], z.LocalOK)
+    (h6 : (6 : UInt8) ∉ zl.name ++ zl.cextra) (k : Nat) (hk : k < (pre ++ zipBytes pre.length (front ++ [zl])).length) :
+    openTiledStrict crc32 inflate pre.length ((pre ++ zipBytes pre.length (front ++ [zl])).take k) = none :=
+  openTiledStrict_prefix_none crc32 inflate pre front zl hz hl h6 k hk
+
+/-- **CQM files cut at any byte offset, the repaired loader, ANY payload — closed**: for every CQM source `s` (no domain
+    condition on biases, bounds, weights: they are payload) every proper prefix of the bytes `to_file` writes (`dumpCqm`)
+    makes the modelled `from_file` — `read_header`, version test, `_open_archive` at the position the header reader stopped
+    at, members, decoding, header check (`cqmFileLoadTiled`) — raise.  This is `truncation_safe_cqm_closed` WITHOUT its
+    signature side condition, for the loader dimod has after the round-8 repair.  Hypotheses: the header dictionary fits its
+    length field (`hlen`), the archive has a last member (`hsplit`; `to_file` always writes `varinfo` and `objective`), the
+    members are as the writer writes them (`hz`, `hl`), the last member's name has no byte `0x06` (`h6`), and the 64-byte
+    aligned header itself (prefix, version, length, ASCII JSON text, spaces) does not contain the end-record signature
+    (`hhdr`; a Boolean check, `sigOnlyAtEnd`-style, evaluated by the harness on every generated header). -/
+theorem truncation_safe_cqm_tiled (crc32 : Bytes → Nat) (inflate : Bytes → Option Bytes) (deflate : Option (Bytes → Bytes)) (μ : Nat → ZMeta)
+    (s : CqmSrc) (front : List ZEntry) (zl : ZEntry)
+    (hlen : (dumpsDict (cqmCountsDict (cqmCounts s.content.erase))).length + 65 < 2 ^ 32)
+    (hsplit : mkEntries crc32 deflate μ 0 (cqmMembers 4 s.content) = front ++ [zl])
+    (hz : ∀ z ∈ front ++ [zl], z.OK crc32 inflate) (hl : ∀ z ∈ front ++ [zl], z.LocalOK)
+    (h6 : (6 : UInt8) ∉ zl.name ++ zl.cextra) (hhdr : ∀ i, ¬ SigAt (cqmFileHeader s) i)
+    (k : Nat) (hk : k < (dumpCqm crc32 deflate μ s).length) :
+    ∃ e, cqmFileLoadTiled true 8 parseCqmHeader crc32 inflate parseExprHeader (fun d => (loadsJ d).isSome)
+      ((dumpCqm crc32 deflate μ s).take k) = .err e :=
+  cqmFileLoadTiled_cut crc32 inflate deflate μ s front zl hlen hsplit hz hl h6 hhdr k hk
+
+/-- non-vacuity: an archive whose only member's CONTENT is an end record (`PK\x05\x06` + 18 zero bytes: the payload the older
+    theorems exclude) meets every hypothesis; all of its proper prefixes are refused -/
+example : ∀ k, k < (([68, 73] : Bytes) ++ zipBytes 2 ([] ++ [ZEntry.mk [118] (eocdRecord 0 0 0) (eocdRecord 0 0 0) 0 0 20 20 0 0 0 22 22 [] [] 0 0])).length →
+    openTiledStrict (fun _ => 0) (fun _ => none) 2
+      ((([68, 73] : Bytes) ++ zipBytes 2 ([] ++ [ZEntry.mk [118] (eocdRecord 0 0 0) (eocdRecord 0 0 0) 0 0 20 20 0 0 0 22 22 [] [] 0 0])).take k) = none :=
+  fun k hk => truncation_safe_archive_any_payload (fun _ => 0) (fun _ => none) [68, 73] []
+    (ZEntry.mk [118] (eocdRecord 0 0 0) (eocdRecord 0 0 0) 0 0 20 20 0 0 0 22 22 [] [] 0 0)
+    (by intro z hz; simp only [List.nil_append, List.mem_singleton] at hz; subst hz; unfold ZEntry.OK; decide)
+    (by intro z hz; simp only [List.nil_append, List.mem_singleton] at hz; subst hz; decide)
+    (by decide) k hk
+
+/-! ## round 8: the DQM theorem with the length check where the code has it -/
+
+/-- **DQM files cut at any byte offset, NO condition on the payload, the loader as coded** (`_from_file_numpy` after the
+    round-7 repair: `blob = file_like.read(length); if len(blob) != length: raise ValueError` — `dqmDecodeLenChecked`, the
+    comparison is with the number the loader READ from the frame of the bytes it was given).  This lifts
+    `truncation_safe_dqm_length_checked_partial`: on every prefix of a written file the length field, if it is read at all,
+    reads as the recorded length (`dqmLen_of_prefix`), so the loader with the check inside agrees with the one whose opener
+    compares with `npz.length`, up to the class of the exception (`dqmDecode_sim_on_prefix`).  Every proper prefix raises or
+    returns the original with only `VARS` padding lost, given only that `np.load` reads the COMPLETE blob. -/
+theorem truncation_safe_dqm_length_checked (parse : Bytes → Option (Bool × H)) (parseVars : Bytes → Option (List J))
+    (openNpz : Bytes → Option (List NpyMember)) (hdrText npz varsText : Bytes) (labelled : Bool) (h : H) (c : DqmContent)
+    (labels : List J) (hh : HeaderOK parse hdrText (labelled, h)) (wf : DqmWF c)
+    (hfull : openNpz npz = some (dqmMembers c)) (hsz : npz.length < 256 ^ 4)
+    (hv : labelled = true → VarsOK parseVars varsText labels ∧ labels.length = c.caseStarts.length) :
+    ∃ pad, pad < 64 ∧ ∀ k, k < (dqmEncode hdrText labelled npz varsText).length →
+      (∃ er, (dqmDecodeLenChecked parse parseVars (fun blob => (openNpz blob).bind fun ms =>
+            match dqmFromMembers ms with | .ok d => some d | _ => none)
+          (fun d => d.caseStarts.length)).run ((dqmEncode hdrText labelled npz varsText).take k) = .err er) ∨
+      ((dqmDecodeLenChecked parse parseVars (fun blob => (openNpz blob).bind fun ms =>
+            match dqmFromMembers ms with | .ok d => some d | _ => none)
+          (fun d => d.caseStarts.length)).run ((dqmEncode hdrText labelled npz varsText).take k) =
+            .ok ((h, c, if labelled then some labels else none), []) ∧
+        (dqmEncode hdrText labelled npz varsText).length - pad ≤ k) := by
+  obtain ⟨pad, hp, hall⟩ := truncation_safe_dqm_length_checked_partial parse parseVars openNpz hdrText npz varsText labelled h c labels
+    hh wf hfull hsz hv
+  refine ⟨pad, hp, fun k hk => ?_⟩
+  have hsim := dqmDecode_sim_on_prefix parse parseVars
+    (fun blob => (openNpz blob).bind fun ms => match dqmFromMembers ms with | .ok d => some d | _ => none)
+    (fun d : DqmContent => d.caseStarts.length) hdrText npz varsText labelled h hh hsz k
+  have heq : (fun b : Bytes => if b.length ≠ npz.length then none else
+        (openNpz b).bind fun ms => match dqmFromMembers ms with | .ok d => some d | _ => none) =
+      (fun blob => (if blob.length ≠ npz.length then none else openNpz blob).bind fun ms =>
+        match dqmFromMembers ms with | .ok d => some d | _ => none) := by
+    funext b; by_cases hb : b.length ≠ npz.length <;> simp [hb]
+  rw [heq] at hsim
+  rcases hall k hk with herr | ⟨hok, hle⟩
+  · exact Or.inl (Res.sim_err hsim herr)
+  · exact Or.inr ⟨Res.sim_ok hsim hok, hle⟩
 
 end C10
